@@ -111,6 +111,10 @@ type ExprGen struct {
 	LessBudget int
 	// MaxNodes bounds the (tree) size.
 	MaxNodes int
+	// per-tree memory: subtrees and conditions generated so far are used again
+	// (the same object in several places, the same condition at another width)
+	pool  []expr.Expr
+	conds [][2]expr.Expr
 }
 
 // NewExprGen returns a generator with the default hostile mix.
@@ -124,6 +128,7 @@ func NewExprGen(r *rand.Rand) *ExprGen {
 func (g *ExprGen) Expr(depth int) expr.Expr {
 	for {
 		lb := g.LessBudget
+		g.pool, g.conds = nil, nil
 		e := g.gen(depth, &lb)
 		if refir.Count(e) <= g.MaxNodes {
 			return e
@@ -203,7 +208,24 @@ func (g *ExprGen) shiftAmount(w expr.Width) expr.Expr {
 }
 
 func (g *ExprGen) gen(depth int, lb *int) expr.Expr {
+	e := g.gen1(depth, lb)
+	if len(g.pool) < 16 && depth >= 1 {
+		g.pool = append(g.pool, e)
+	}
+	return e
+}
+
+func (g *ExprGen) gen1(depth int, lb *int) expr.Expr {
 	r := g.R
+	if len(g.pool) > 0 && r.Intn(12) == 0 {
+		// an earlier subtree of this tree again (the identical object); conditionals it
+		// contains count against the budget of alternatives
+		e := g.pool[r.Intn(len(g.pool))]
+		if n := refir.CountLess(e); n <= *lb {
+			*lb -= n
+			return e
+		}
+	}
 	if depth <= 0 || r.Intn(6) == 0 {
 		return g.leaf()
 	}
@@ -226,12 +248,27 @@ func (g *ExprGen) gen(depth int, lb *int) expr.Expr {
 			e = expr.NewBinary(op, a, b, w)
 		case k < 8 && !g.NoLess && *lb > 0:
 			*lb--
-			a := g.gen(depth-1, lb)
-			var b expr.Expr
-			if r.Intn(4) == 0 {
-				b = a // equal operands: the boundary of unsigned less
+			var a, b expr.Expr
+			if len(g.conds) > 0 && r.Intn(4) == 0 {
+				// the condition of an earlier conditional of this tree, compared again
+				// (at this node's own width, which decides how much of it is compared)
+				cd := g.conds[r.Intn(len(g.conds))]
+				a, b = cd[0], cd[1]
+				if n := refir.CountLess(a) + refir.CountLess(b); n <= *lb {
+					*lb -= n
+				} else {
+					a, b = g.leaf(), g.leaf()
+				}
 			} else {
-				b = g.gen(depth-1, lb)
+				a = g.gen(depth-1, lb)
+				if r.Intn(4) == 0 {
+					b = a // equal operands: the boundary of unsigned less
+				} else {
+					b = g.gen(depth-1, lb)
+				}
+			}
+			if len(g.conds) < 8 {
+				g.conds = append(g.conds, [2]expr.Expr{a, b})
 			}
 			t, f := g.gen(depth-1, lb), g.gen(depth-1, lb)
 			if w > 1 && r.Intn(3) == 0 {
